@@ -20,6 +20,7 @@ PLAN = dict(
                 "benign re-encoding."),
     level_note=NOTE_BASE,
     runs=[
+        dict(name="conc", run="^(TestConcTamper)$", checks=(40, 2000), shards=(2, 8), timeout=(400, 3600), race=True),
         dict(name="flips", run="^(TestExhaustiveFlips|TestFieldSweep|TestCorpus)$", shards=(3, 16), timeout=(300, 3600)),
         dict(name="tamper", run="^TestPropTamper$", checks=(2500, 200000), shards=(2, 16), timeout=(300, 3600)),
     ],
